@@ -165,6 +165,28 @@ func CLILinter() *linter.Linter {
 	)
 }
 
+// FixAll applies every auto-fix of the CLI rule set the way `gosqlx lint --auto-fix` does: lint once, hand the
+// violations to each rule's Fix in turn.
+func FixAll(sql string) (string, error) {
+	l := CLILinter()
+	vs := l.LintString(sql, "x.sql").Violations
+	var first error
+	for _, r := range l.Rules() {
+		if !r.CanAutoFix() {
+			continue
+		}
+		out, err := r.Fix(sql, vs)
+		if err != nil {
+			if first == nil {
+				first = err
+			}
+			continue
+		}
+		sql = out
+	}
+	return sql, first
+}
+
 // LintCounts returns the number of error- and warning-level findings of the CLI rule set.
 func LintCounts(sql string) (errs, warns int) {
 	r := CLILinter().LintString(sql, "x.sql")
